@@ -18,7 +18,7 @@ RULE = ("event streams generated from the SSE grammar (comments, 1-3 data lines 
         "when <=100 bytes (exhaustive per stream) else random splits; distinct = distinct stream bytes "
         "(distinct_nontrivial) and distinct (stream, cut tuple) pairs (hit counter split_cases); non-trivial = "
         "the reference interpretation yields at least one event and at least one multi-piece split was run")
-RULE = __import__("vf.core", fromlist=["rule_add"]).rule_add(RULE, 'also a second stream on the same Respondent (reuse), lines at the length limit cut around their end')
+RULE = __import__("vf.core", fromlist=["rule_add"]).rule_add(RULE, "also a second stream on the same Respondent (reuse), lines at the length limit cut around their end; also through a Patron: the server's close noticed together with the last bytes, or a few rounds later")
 META = {"engine": "E http", "technique": "differential: EventSource vs independent SSE interpreter, whole vs split",
         "level_text": "exploration: splits exhaustive (<=3 pieces) per generated short stream; streams sampled",
         "level_note": "streams end in an unterminated comment so the last terminator is decidable; no BOM, no "
